@@ -54,4 +54,25 @@ example : (Dense.run [⟨[1], 200, 500⟩, ⟨[1], 1000, 2000⟩, ⟨[1], 10000,
     [.insert ⟨[1], 100, 210⟩ 1, .insert ⟨[1], 100, 500⟩ 1, .insert ⟨[1], 100, 5000⟩ 1, .insert ⟨[1], 100, 200⟩ 1, .insert ⟨[1], 1000, 1001⟩ 1]).counts
     = [3, 2, 0, 0, 3] := by decide +kernel
 
+/-- the linear-time evaluation of the C05 spec the driver uses on large region lists (`specCountsFast`, regions paired
+with their positions instead of list indexing) is the spec -/
+theorem C05_specCountsFast_eq (regions : List Rec) (ops : List COp) :
+    specCountsFast regions ops = specCounts regions ops := by
+  unfold specCountsFast specCounts
+  apply List.ext_getElem
+  · simp
+  · intro i h1 h2
+    have hi : i < regions.length := by simpa using h2
+    simp only [List.getElem_map, List.getElem_zipIdx, List.getElem_range]
+    congr 1
+    apply List.map_congr_left
+    intro o _
+    cases o with
+    | insert tag k =>
+      have : regions[i]?.getD default = regions[i] := by
+        simp [List.getElem?_eq_getElem hi]
+      simp [contrib, this]
+    | insertAt j k => simp [contrib]
+    | reset => simp [contrib]
+
 end BV
